@@ -117,6 +117,16 @@ impl C02 {
     out.eval("l2s");
     let l = lunlist();
     let k = [("ly", y), ("lm", m), ("ld", d)];
+    // a huge day argument is refused like any other day beyond the month (it must not be narrowed into range first)
+    if d >= 1 && d <= 30 && (y + m + d) % 7 == 0 {
+      for big in [256i64, 65536, 4294967296] {
+        out.class("huge_day_arguments");
+        if let Ok(x) = lunar_new(y, m, d + big) {
+          out.fail(env, viol("l2s", "invalid_lunar_day_accepted", case, &k, lfmt((y, m, d + big)), "refused".into(), format!("accepted as {}", lfmt(lymd(&x)))));
+          break;
+        }
+      }
+    }
     // LunarDay::new and the panicking LunarDay::from_ymd accept exactly the same triples
     if d >= 0 {
       let a = lunar_new(y, m, d).map(|x| lymd(&x));
